@@ -80,8 +80,12 @@ def plan(rng, tier):
     # key comparison (object keys of class HK) or in the __del__ of a stored
     # value the mutation releases (values of class FV); transient containers
     cb = None
-    if not cfg["stored"] and cfg["leaf"] is not None and rng.random() < 0.3:
-        if fam[1] == "O" and is_mapping(cfg["kind"]) and rng.random() < 0.5:
+    if cfg["leaf"] is not None and rng.random() < 0.3:
+        # (finalizer steps on transient containers only: DESIGN section 10;
+        # comparison steps on stored ones too -- Session 4 -- where the
+        # cursor step may have to load nodes the mutation is in the middle of)
+        if not cfg["stored"] and fam[1] == "O" and \
+                is_mapping(cfg["kind"]) and rng.random() < 0.5:
             cb = "fin"
         elif fam[0] == "O":
             cb = "cmp"
